@@ -163,6 +163,10 @@ var zzC19Corpus = []string{
 	/* 10 */ "<td>cell</td><td>two</td>",
 	/* 11 */ "<p>{{ a < b }} and {{ c && d }} &amp; {{ e > f ? 'x' : 'y' }}</p>",
 	/* 12 */ "<p>{{ a }} &lt;b&gt; &amp;lt; {{ c }}</p><pre>{{ x }} &lt;i&gt; {{ y }}</pre>",
+	/* 13 */ "<table><tr><td><a href=\"#\"><pre>if a:\n    b()</pre></a></td></tr></table>",
+	/* 14 */ "<span><b><script>if (a<b && c>d) { go(); }</script></b></span><p><i><style>p > a { color: red }</style></i></p>",
+	/* 15 */ "<div><span><pre>  two\n   lines </pre></span><em><textarea>  keep\n  me </textarea></em></div>",
+	/* 16 */ "<p><label>a <input type=\"checkbox\" checked> b</label> <select><option selected>x</option></select></p>",
 }
 
 func zzSig(nodes []*html.Node) string {
@@ -182,6 +186,11 @@ func zzSig(nodes []*html.Node) string {
 			sb.WriteString("</" + n.Data + ">")
 		case html.TextNode:
 			t := strings.Join(strings.Fields(n.Data), " ")
+			if p := n.Parent; p != nil && (p.Data == "pre" || p.Data == "script" || p.Data == "style" || p.Data == "textarea") {
+				// content of raw-text and pre elements is not to be altered
+				// (surrounding blank lines aside)
+				t = "RAW:" + strings.Trim(n.Data, " \n\t")
+			}
 			if t != "" {
 				sb.WriteString("[" + t + "]")
 			}
